@@ -10,6 +10,18 @@
 //   - for the whole body: receiver fields read / written and receiver methods called (the Coq side closes
 //     these transitively to obtain the set of fields written inside the critical sections)
 //
+// Equivalent locking idioms are normalised to the same facts -- only when the helper involved is found in the
+// same package (all non-test files of the directory are parsed), has a pointer receiver of the type, takes no
+// parameters and its body is EXACTLY the pattern (it touches nothing else); anything else stays unrecognised and
+// the fact stays broken:
+//   (a) `defer r.helper()()`           helper body: `r.mu.Lock(); return r.mu.Unlock`  (or `return func() { r.mu.Unlock() }`)
+//                                      = Lock at this statement, deferred Unlock right after it
+//   (b) `r.lock(); defer r.unlock()`   wrapper bodies: exactly `r.mu.Lock()` / exactly `r.mu.Unlock()`
+//   (c) `r.mu.Lock(); defer func() { r.mu.Unlock() }()`
+// A use of such a helper counts as the mutex mentions it stands for (1 for a wrapper, 2 for a lock-and-return-unlock
+// helper) and is not listed as a receiver-method call; every other use of a helper (method value, call outside the
+// idiom position) still counts as mentions, so it breaks the "exactly two mentions" fact.
+//
 // "written" is conservative: assignment / inc-dec target rooted at r.f, delete(r.f, ..), &r.f, or a
 // method call on r.f (unknown effect).  Every other mention of r.f is a read.
 package main
@@ -43,6 +55,134 @@ type ctx struct {
 	fields  map[string]bool
 	locks   map[string]bool
 	methods map[string]bool
+	// recognised helpers (method name -> mutex field)
+	lockWrap   map[string]string // body: r.mu.Lock()
+	unlockWrap map[string]string // body: r.mu.Unlock()
+	lockRet    map[string]string // body: r.mu.Lock(); return <unlock of r.mu>
+}
+
+// helperWeight: how many mutex mentions one use of the receiver method stands for (0: not a helper)
+func (c *ctx) helperWeight(name string) int {
+	if _, ok := c.lockWrap[name]; ok {
+		return 1
+	}
+	if _, ok := c.unlockWrap[name]; ok {
+		return 1
+	}
+	if _, ok := c.lockRet[name]; ok {
+		return 2
+	}
+	return 0
+}
+
+// recvMethodCall: e is the call `recv.name()` without arguments
+func (c *ctx) recvMethodCall(e ast.Expr) (string, bool) {
+	call, ok := e.(*ast.CallExpr)
+	if !ok || len(call.Args) != 0 {
+		return "", false
+	}
+	s, ok := call.Fun.(*ast.SelectorExpr)
+	if !ok {
+		return "", false
+	}
+	id, ok := s.X.(*ast.Ident)
+	if !ok || id.Name != c.recv || c.recv == "" || c.fields[s.Sel.Name] {
+		return "", false
+	}
+	return s.Sel.Name, true
+}
+
+// directLockOp: e is the call `recv.<lock>.<op>()`; returns (op, field)
+func (c *ctx) directLockOp(e ast.Expr) (string, string, bool) {
+	call, ok := e.(*ast.CallExpr)
+	if !ok || len(call.Args) != 0 {
+		return "", "", false
+	}
+	s, ok := call.Fun.(*ast.SelectorExpr)
+	if !ok {
+		return "", "", false
+	}
+	f, ok := c.recvField(s.X)
+	if !ok || !c.locks[f] {
+		return "", "", false
+	}
+	return s.Sel.Name, f, true
+}
+
+// unlockFuncLit: e is `func() { recv.<lock>.Unlock() }` (or through an unlock wrapper); returns the field
+func (c *ctx) unlockFuncLit(e ast.Expr) (string, bool) {
+	fl, ok := e.(*ast.FuncLit)
+	if !ok || fl.Type.Params != nil && len(fl.Type.Params.List) != 0 || fl.Type.Results != nil && len(fl.Type.Results.List) != 0 {
+		return "", false
+	}
+	if len(fl.Body.List) != 1 {
+		return "", false
+	}
+	es, ok := fl.Body.List[0].(*ast.ExprStmt)
+	if !ok {
+		return "", false
+	}
+	if op, f, ok := c.directLockOp(es.X); ok && op == "Unlock" {
+		return f, true
+	}
+	if n, ok := c.recvMethodCall(es.X); ok {
+		if f, ok := c.unlockWrap[n]; ok {
+			return f, true
+		}
+	}
+	return "", false
+}
+
+// classifyHelper looks at one method of the type (its own receiver name is set in c.recv by the caller)
+func (c *ctx) classifyHelper(fd *ast.FuncDecl, pointerRecv bool) {
+	if !pointerRecv || fd.Body == nil || fd.Type.Params != nil && len(fd.Type.Params.List) != 0 || c.recv == "" {
+		return
+	}
+	nres := 0
+	if fd.Type.Results != nil {
+		for _, r := range fd.Type.Results.List {
+			if len(r.Names) == 0 {
+				nres++
+			} else {
+				nres += len(r.Names)
+			}
+		}
+	}
+	body := fd.Body.List
+	if nres == 0 && len(body) == 1 {
+		if es, ok := body[0].(*ast.ExprStmt); ok {
+			if op, f, ok := c.directLockOp(es.X); ok {
+				if op == "Lock" {
+					c.lockWrap[fd.Name.Name] = f
+				} else if op == "Unlock" {
+					c.unlockWrap[fd.Name.Name] = f
+				}
+			}
+		}
+		return
+	}
+	if nres == 1 && len(body) == 2 {
+		es, ok1 := body[0].(*ast.ExprStmt)
+		rs, ok2 := body[1].(*ast.ReturnStmt)
+		if !ok1 || !ok2 || len(rs.Results) != 1 {
+			return
+		}
+		op, f, ok := c.directLockOp(es.X)
+		if !ok || op != "Lock" {
+			return
+		}
+		// return r.mu.Unlock   (method value)
+		if sel, ok := rs.Results[0].(*ast.SelectorExpr); ok && sel.Sel.Name == "Unlock" {
+			if g, ok := c.recvField(sel.X); ok && g == f {
+				c.lockRet[fd.Name.Name] = f
+			}
+			return
+		}
+		// return func() { r.mu.Unlock() }
+		if g, ok := c.unlockFuncLit(rs.Results[0]); ok && g == f {
+			c.lockRet[fd.Name.Name] = f
+		}
+	}
 }
 
 // recvField returns f when e is `recv.f` with f a struct field.
@@ -84,21 +224,33 @@ func (c *ctx) rootField(e ast.Expr) (string, bool) {
 	}
 }
 
-// lockOp: e is the call `recv.<lock>.<op>()`.
+// lockOp: e is the call `recv.<lock>.<op>()`, or a call of a recognised trivial wrapper method (idiom b).
 func (c *ctx) lockOp(e ast.Expr) (string, bool) {
-	call, ok := e.(*ast.CallExpr)
-	if !ok || len(call.Args) != 0 {
-		return "", false
+	if op, _, ok := c.directLockOp(e); ok {
+		return op, true
 	}
-	s, ok := call.Fun.(*ast.SelectorExpr)
+	if n, ok := c.recvMethodCall(e); ok {
+		if _, ok := c.lockWrap[n]; ok {
+			return "Lock", true
+		}
+		if _, ok := c.unlockWrap[n]; ok {
+			return "Unlock", true
+		}
+	}
+	return "", false
+}
+
+// lockRetDefer: the deferred call is `recv.helper()()` with helper a lock-and-return-unlock helper (idiom a)
+func (c *ctx) lockRetDefer(call *ast.CallExpr) bool {
+	if len(call.Args) != 0 {
+		return false
+	}
+	n, ok := c.recvMethodCall(call.Fun)
 	if !ok {
-		return "", false
+		return false
 	}
-	f, ok := c.recvField(s.X)
-	if !ok || !c.locks[f] {
-		return "", false
-	}
-	return s.Sel.Name, true
+	_, ok = c.lockRet[n]
+	return ok
 }
 
 func render(e ast.Expr) string {
@@ -191,7 +343,9 @@ func (c *ctx) scan(n ast.Node, a *acc) {
 			}
 			if s, ok := x.Fun.(*ast.SelectorExpr); ok {
 				if id, ok := s.X.(*ast.Ident); ok && id.Name == c.recv && c.recv != "" && !c.fields[s.Sel.Name] {
-					a.self[s.Sel.Name] = true // r.method(...)
+					if c.helperWeight(s.Sel.Name) == 0 { // uses of lock helpers are counted as mutex mentions instead
+						a.self[s.Sel.Name] = true // r.method(...)
+					}
 					return true
 				}
 				if f, ok := c.rootField(s.X); ok && !c.locks[f] {
@@ -207,7 +361,7 @@ func (c *ctx) scan(n ast.Node, a *acc) {
 					if !c.locks[x.Sel.Name] && !written[x] {
 						a.reads[x.Sel.Name] = true
 					}
-				} else {
+				} else if c.helperWeight(x.Sel.Name) == 0 {
 					a.self[x.Sel.Name] = true // method value or call
 				}
 			}
@@ -221,6 +375,15 @@ func (c *ctx) scan(n ast.Node, a *acc) {
 }
 
 func keys(m map[string]bool) []string {
+	out := make([]string, 0, len(m))
+	for k := range m {
+		out = append(out, k)
+	}
+	sort.Strings(out)
+	return out
+}
+
+func keysS(m map[string]string) []string {
 	out := make([]string, 0, len(m))
 	for k := range m {
 		out = append(out, k)
@@ -270,6 +433,7 @@ func (c *ctx) analyse(fd *ast.FuncDecl) facts {
 	}
 	stmts := fd.Body.List
 	f.NStmts = len(stmts)
+	idiomLits := 0
 	for k, s := range stmts {
 		if es, ok := s.(*ast.ExprStmt); ok && f.LockAt < 0 {
 			if op, ok := c.lockOp(es.X); ok && op == "Lock" {
@@ -279,6 +443,15 @@ func (c *ctx) analyse(fd *ast.FuncDecl) facts {
 		if ds, ok := s.(*ast.DeferStmt); ok && f.DeferUnlockAt < 0 {
 			if op, ok := c.lockOp(ds.Call); ok && op == "Unlock" {
 				f.DeferUnlockAt = k
+			} else if len(ds.Call.Args) == 0 {
+				if _, ok := c.unlockFuncLit(ds.Call.Fun); ok { // idiom (c)
+					f.DeferUnlockAt = k
+					idiomLits++
+				}
+			}
+			if f.LockAt < 0 && f.DeferUnlockAt < 0 && c.lockRetDefer(ds.Call) { // idiom (a): locks here, unlock deferred
+				f.LockAt = k
+				f.DeferUnlockAt = k + 1
 			}
 		}
 	}
@@ -294,9 +467,13 @@ func (c *ctx) analyse(fd *ast.FuncDecl) facts {
 			if fl, ok := c.recvField(x); ok && c.locks[fl] {
 				f.LockMentions++
 			}
+			if id, ok := x.X.(*ast.Ident); ok && id.Name == c.recv && c.recv != "" && !c.fields[x.Sel.Name] {
+				f.LockMentions += c.helperWeight(x.Sel.Name) // every use of a lock helper, in idiom position or not
+			}
 		}
 		return true
 	})
+	f.FuncLits -= idiomLits // `defer func() { r.mu.Unlock() }()` is the deferred unlock itself
 	whole := newAcc()
 	c.scan(fd.Body, whole)
 	f.Reads, f.Writes, f.Self, f.Escapes = keys(whole.reads), keys(whole.writes), keys(whole.self), whole.escapes
@@ -342,7 +519,8 @@ func main() {
 		fmt.Fprintln(os.Stderr, "lockfacts:", err)
 		os.Exit(1)
 	}
-	c := &ctx{fields: map[string]bool{}, locks: map[string]bool{}, methods: map[string]bool{}}
+	c := &ctx{fields: map[string]bool{}, locks: map[string]bool{}, methods: map[string]bool{},
+		lockWrap: map[string]string{}, unlockWrap: map[string]string{}, lockRet: map[string]string{}}
 	var fieldOrder, lockOrder []string
 	// struct fields; mutex fields are those whose type is <pkg>.Mutex / <pkg>.RWMutex (or a pointer to one)
 	for _, d := range file.Decls {
@@ -403,6 +581,37 @@ func main() {
 			}
 		}
 	}
+	// lock helpers may live in any non-test file of the package
+	pkgFiles := []*ast.File{file}
+	if matches, err := filepath.Glob(filepath.Join(filepath.Dir(filepath.Join(*repo, *rel)), "*.go")); err == nil {
+		sort.Strings(matches)
+		for _, m := range matches {
+			if strings.HasSuffix(m, "_test.go") || filepath.Base(m) == filepath.Base(*rel) {
+				continue
+			}
+			if pf, err := parser.ParseFile(fset, m, nil, 0); err == nil && pf.Name.Name == file.Name.Name {
+				pkgFiles = append(pkgFiles, pf)
+			}
+		}
+	}
+	// two passes: wrappers first (a lock-and-return-unlock helper may return a closure calling an unlock wrapper)
+	for pass := 0; pass < 2; pass++ {
+		for _, pf := range pkgFiles {
+			for _, d := range pf.Decls {
+				fd, ok := d.(*ast.FuncDecl)
+				if !ok {
+					continue
+				}
+				r, ok := recvOf(fd)
+				if !ok || r == "" || r == "_" {
+					continue
+				}
+				_, ptr := fd.Recv.List[0].Type.(*ast.StarExpr)
+				c.recv = r
+				c.classifyHelper(fd, ptr)
+			}
+		}
+	}
 	var all []facts
 	for _, d := range file.Decls {
 		fd, ok := d.(*ast.FuncDecl)
@@ -425,6 +634,8 @@ func main() {
 	fmt.Fprintf(&b, "   Regenerated by bin/regen-c13.sh on every `bin/check C13` run; Properties/C13.v proves\n")
 	fmt.Fprintf(&b, "   lock_facts_ok on this file by computation. *)\n")
 	fmt.Fprintf(&b, "From Coq Require Import List String.\nFrom PF Require Import Graph.Lock.\nImport ListNotations.\nOpen Scope string_scope.\n\n")
+	fmt.Fprintf(&b, "(* recognised lock helpers (normalised, see tools/lockfacts): lock wrappers %v, unlock wrappers %v, lock-and-return-unlock %v *)\n",
+		keysS(c.lockWrap), keysS(c.unlockWrap), keysS(c.lockRet))
 	fmt.Fprintf(&b, "Definition struct_fields : list string := %s.\n", coqStrs(fieldOrder))
 	fmt.Fprintf(&b, "Definition lock_fields : list string := %s.\n\n", coqStrs(lockOrder))
 	fmt.Fprintf(&b, "Definition facts : list mfacts := [\n")
